@@ -5,7 +5,7 @@ Scaling rule (stated in Table.tla): model row i is repeated m_i times; column r 
 row number, so a result of a row-by-row operation is scaled by repeating, in input order, the block
 of result rows that carry r = i exactly m_i times.  Nothing is computed about the operation here.
 The multiplicities put the odd-typed cell on real rows 0 / inside the first 1000 / 999 / 1000 /
-1200 / last of tables with 1001, 1500 (and 5000) rows.
+1200 / last of tables with 1001, 2500 (thorough: also 1500 and 5000) rows.
 """
 from __future__ import annotations
 
@@ -14,7 +14,7 @@ import traceback
 import replay_C20 as rp
 import text_C20 as tx
 
-SIZES = {"quick": (1001, 1500), "thorough": (1001, 1500, 5000)}
+SIZES = {"quick": (1001, 2500), "thorough": (1001, 1500, 2500, 5000)}
 TARGET = {1: 0, 2: 500, 3: 999, 4: 1000, 5: 1200, 6: None}  # model position of the odd cell -> real row (None = last)
 
 
@@ -140,7 +140,10 @@ def check_long(run, stats, jobs):
     need = {"Sorted", "Filtered", "Unique", "GetColumns", "WithNewColumn", "InnerJoin"}
     if need - acts:
         raise RuntimeError(f"vacuous: long group lacks {sorted(need - acts)}")
-    work = [(r, n) for r in recs for n in SIZES[run.tier]]
+    sizes = SIZES[run.tier]
+    # quick: every operation on the smallest size, the larger one for reading, filtering, derived column and join
+    work = [(r, n) for r in recs for n in sizes
+            if run.tier != "quick" or n == sizes[0] or r["act"] in ("GetColumns", "Filtered", "InnerJoin")]
     t0 = time.time()
     n_done = bad = 0
     with mp.get_context("fork").Pool(min(16, os.cpu_count() or 1), initializer=_worker_init) as pool:
